@@ -12,8 +12,6 @@ import (
 )
 
 func parseRSAKey(d *jsonutils.Decoder, key *Key) {
-	var privateKey rsa.PrivateKey
-
 	// parameters for public key
 	e := d.MustBigInt("e")
 	if err := d.Err(); err != nil {
@@ -23,7 +21,6 @@ func parseRSAKey(d *jsonutils.Decoder, key *Key) {
 		d.SaveError(errors.New("jwk: invalid rsa parameter e"))
 		return
 	}
-	privateKey.PublicKey.E = int(e.Int64())
 	n := d.MustBigInt("n")
 	pub := rsa.PublicKey{
 		E: int(e.Int64()),
@@ -49,33 +46,26 @@ func parseRSAKey(d *jsonutils.Decoder, key *Key) {
 			},
 		}
 
-		// precomputed values
-		crtValues := []rsa.CRTValue{}
+		// the other primes and the CRT values that the JWK supplies.
+		var supplied rsa.PrecomputedValues
 		if oth, ok := d.GetArray("oth"); ok {
-			crtValues = make([]rsa.CRTValue, 0, len(oth))
+			supplied.CRTValues = make([]rsa.CRTValue, 0, len(oth))
 			for i, v := range oth {
 				u, ok := v.(map[string]any)
 				if !ok {
 					d.SaveError(fmt.Errorf("jwk: want map[string]any for the parameter oth[%d] but got %T", i, v))
 					return
 				}
-				r := parseRSAOthParam(d, i, u, "r")
-				privateKey.Primes = append(privateKey.Primes, r)
-				crtValues = append(crtValues, rsa.CRTValue{
+				priv.Primes = append(priv.Primes, parseRSAOthParam(d, i, u, "r"))
+				supplied.CRTValues = append(supplied.CRTValues, rsa.CRTValue{
 					Exp:   parseRSAOthParam(d, i, u, "d"),
 					Coeff: parseRSAOthParam(d, i, u, "t"),
-					R:     r,
 				})
 			}
 		}
-		if d.Has("dp") && d.Has("dq") && d.Has("qi") {
-			privateKey.Precomputed = rsa.PrecomputedValues{
-				Dp:        d.MustBigInt("dp"),
-				Dq:        d.MustBigInt("dq"),
-				Qinv:      d.MustBigInt("qi"),
-				CRTValues: crtValues,
-			}
-		}
+		supplied.Dp, _ = d.GetBigInt("dp")
+		supplied.Dq, _ = d.GetBigInt("dq")
+		supplied.Qinv, _ = d.GetBigInt("qi")
 		if err := d.Err(); err != nil {
 			return
 		}
@@ -85,6 +75,10 @@ func parseRSAKey(d *jsonutils.Decoder, key *Key) {
 			return
 		}
 		priv.Precompute()
+		if err := verifyRSAPrecomputedValues(&priv.Precomputed, &supplied); err != nil {
+			d.SaveError(err)
+			return
+		}
 		key.priv = &priv
 	}
 
@@ -107,6 +101,26 @@ func parseRSAOthParam(d *jsonutils.Decoder, i int, v map[string]any, name string
 		return nil
 	}
 	return new(big.Int).SetBytes(d.Decode(w, fmt.Sprintf("oth[%d].%s", i, name)))
+}
+
+// verifyRSAPrecomputedValues verifies that the CRT values the JWK supplies
+// are consistent with the values computed from the private exponent and the primes.
+func verifyRSAPrecomputedValues(computed, supplied *rsa.PrecomputedValues) error {
+	mismatch := func(a, b *big.Int) bool {
+		return b != nil && (a == nil || a.Cmp(b) != 0)
+	}
+	if mismatch(computed.Dp, supplied.Dp) || mismatch(computed.Dq, supplied.Dq) || mismatch(computed.Qinv, supplied.Qinv) {
+		return errors.New("jwk: invalid rsa CRT parameters")
+	}
+	if len(computed.CRTValues) != len(supplied.CRTValues) {
+		return errors.New("jwk: invalid rsa CRT parameters")
+	}
+	for i, v := range supplied.CRTValues {
+		if mismatch(computed.CRTValues[i].Exp, v.Exp) || mismatch(computed.CRTValues[i].Coeff, v.Coeff) {
+			return errors.New("jwk: invalid rsa CRT parameters")
+		}
+	}
+	return nil
 }
 
 func encodeRSAKey(e *jsonutils.Encoder, priv *rsa.PrivateKey, pub *rsa.PublicKey) {
@@ -136,24 +150,37 @@ func encodeRSAKey(e *jsonutils.Encoder, priv *rsa.PrivateKey, pub *rsa.PublicKey
 		e.SetBigInt("q", priv.Primes[1])
 
 		// precomputed values
-		if priv.Precomputed.Dp != nil {
-			if priv.Precomputed.Dq == nil || priv.Precomputed.Qinv == nil {
+		precomputed := priv.Precomputed
+		if precomputed.Dp == nil && len(priv.Primes) > 2 {
+			// "oth" is required to represent the third and subsequent primes.
+			// compute the CRT values on a copy not to modify the key.
+			tmp := rsa.PrivateKey{
+				PublicKey: priv.PublicKey,
+				D:         priv.D,
+				Primes:    priv.Primes,
+			}
+			tmp.Precompute()
+			precomputed = tmp.Precomputed
+		}
+		if precomputed.Dp != nil {
+			if precomputed.Dq == nil || precomputed.Qinv == nil || len(precomputed.CRTValues) != len(priv.Primes)-2 {
 				e.SaveError(errors.New("jwk: incomplete precomputed values of rsa private key"))
 				return
 			}
-			e.SetBigInt("dp", priv.Precomputed.Dp)
-			e.SetBigInt("dq", priv.Precomputed.Dq)
-			e.SetBigInt("qi", priv.Precomputed.Qinv)
-			oth := make([]map[string]string, 0, len(priv.Precomputed.CRTValues))
-			for _, v := range priv.Precomputed.CRTValues {
-				if v.Exp == nil || v.Coeff == nil || v.R == nil {
+			e.SetBigInt("dp", precomputed.Dp)
+			e.SetBigInt("dq", precomputed.Dq)
+			e.SetBigInt("qi", precomputed.Qinv)
+			oth := make([]map[string]string, 0, len(precomputed.CRTValues))
+			for i, v := range precomputed.CRTValues {
+				if v.Exp == nil || v.Coeff == nil {
 					e.SaveError(errors.New("jwk: incomplete precomputed values of rsa private key"))
 					return
 				}
 				u := make(map[string]string)
 				u["d"] = e.Encode(v.Exp.Bytes())
 				u["t"] = e.Encode(v.Coeff.Bytes())
-				u["r"] = e.Encode(v.R.Bytes())
+				// v.R is the product of the primes prior to this, not the prime factor.
+				u["r"] = e.Encode(priv.Primes[i+2].Bytes())
 				oth = append(oth, u)
 			}
 			if len(oth) > 0 {
